@@ -138,7 +138,7 @@ func runC20Worker(cfg *config) error {
 	log.SetOutput(io.Discard)
 	c := &c20Case{Seed: cfg.seed, Writers: 8, OpsPer: 40}
 	if cfg.tier == "thorough" {
-		c.Writers, c.OpsPer = 24, 120
+		c.Writers, c.OpsPer = 16, 80 // a round of 24 x 120 takes 7 minutes under the race detector
 	}
 	err := c20Round(c, cfg.out)
 	if err != nil {
@@ -215,6 +215,9 @@ func c20Round(c *c20Case, dir string) error {
 
 	var unanswered int32
 	verifyOK := int32(1)
+	// verifications are serialised with the writes and slow under the race detector: with many writers asking
+	// for one at the same time the last of them waits for all the others
+	verifyTimeout := time.Duration(c.Writers) * 15 * time.Second
 	var wg sync.WaitGroup
 	var raaMu sync.Mutex
 	stopReaders := make(chan struct{})
@@ -254,7 +257,7 @@ func c20Round(c *c20Case, dir string) error {
 					if wr.Intn(3) == 0 {
 						op.Points = []sPoint{{Type: "tombstone", Time: tick(), VBits: math.Float64bits(float64(wr.Intn(2)))}}
 					}
-				case x < 90 && created < 6:
+				case x < 95+c.Writers/4 && created < 6: // the share of store verifications shrinks with the number of writers
 					id := fmt.Sprintf("w%dc%d", w, created)
 					created++
 					parent := targets[wr.Intn(len(targets))]
@@ -262,7 +265,7 @@ func c20Round(c *c20Case, dir string) error {
 					targets = append(targets, id)
 				default:
 					// store verification while writes are going on
-					msg, err := wnc.Request("admin.storeVerify", nil, 30*time.Second)
+					msg, err := wnc.Request("admin.storeVerify", nil, verifyTimeout)
 					if err != nil {
 						atomic.AddInt32(&unanswered, 1)
 						return
@@ -293,18 +296,52 @@ func c20Round(c *c20Case, dir string) error {
 			}
 		}(w)
 	}
+	nReaders := 3
+	c.Readers = make([][]c20Read, nReaders)
+	var rwg sync.WaitGroup
+	for rd := 0; rd < nReaders; rd++ {
+		rwg.Add(1)
+		go func(rd int) {
+			defer rwg.Done()
+			rr := rand.New(rand.NewSource(c.Seed*31 + int64(rd)))
+			rnc, err := nats.Connect(in.url, nats.Timeout(10*time.Second))
+			if err != nil {
+				atomic.AddInt32(&unanswered, 1)
+				return
+			}
+			defer rnc.Close()
+			targets := append([]string{storeRootID}, base...)
+			for len(c.Readers[rd]) < 200 {
+				select {
+				case <-stopReaders:
+					return
+				default:
+				}
+				n := targets[rr.Intn(len(targets))]
+				got, err := c20ReadNode(rnc, n)
+				if err != nil {
+					atomic.AddInt32(&unanswered, 1)
+					return
+				}
+				c.Readers[rd] = append(c.Readers[rd], c20Read{Node: n, Points: got})
+				time.Sleep(time.Duration(rr.Intn(3)) * time.Millisecond)
+			}
+		}(rd)
+	}
+	wg.Wait()
+	close(stopReaders)
+	rwg.Wait()
 	// a pipelined burst: one connection fires its requests without waiting for the replies, so that more than a
-	// thousand acknowledged writes are outstanding at once; every one of them must be answered
+	// thousand acknowledged writes are outstanding at once; every one of them must be answered.  It runs after the
+	// writers and readers are done, so that their request timeouts are not spent waiting behind it
 	burst := 1100
 	if c.Writers > 8 {
-		burst = 3000
+		burst = 2000
 	}
 	if c.Seed%3 != 0 {
 		burst = 0 // one round in three
 	}
-	wg.Add(1)
-	go func() {
-		defer wg.Done()
+	func() {
 		bnc, err := nats.Connect(in.url, nats.Timeout(10*time.Second))
 		if err != nil {
 			atomic.AddInt32(&unanswered, 1)
@@ -350,41 +387,6 @@ func c20Round(c *c20Case, dir string) error {
 			ack(op)
 		}
 	}()
-	nReaders := 3
-	c.Readers = make([][]c20Read, nReaders)
-	var rwg sync.WaitGroup
-	for rd := 0; rd < nReaders; rd++ {
-		rwg.Add(1)
-		go func(rd int) {
-			defer rwg.Done()
-			rr := rand.New(rand.NewSource(c.Seed*31 + int64(rd)))
-			rnc, err := nats.Connect(in.url, nats.Timeout(10*time.Second))
-			if err != nil {
-				atomic.AddInt32(&unanswered, 1)
-				return
-			}
-			defer rnc.Close()
-			targets := append([]string{storeRootID}, base...)
-			for len(c.Readers[rd]) < 200 {
-				select {
-				case <-stopReaders:
-					return
-				default:
-				}
-				n := targets[rr.Intn(len(targets))]
-				got, err := c20ReadNode(rnc, n)
-				if err != nil {
-					atomic.AddInt32(&unanswered, 1)
-					return
-				}
-				c.Readers[rd] = append(c.Readers[rd], c20Read{Node: n, Points: got})
-				time.Sleep(time.Duration(rr.Intn(3)) * time.Millisecond)
-			}
-		}(rd)
-	}
-	wg.Wait()
-	close(stopReaders)
-	rwg.Wait()
 	c.Unanswered = int(unanswered)
 	c.VerifyOK = verifyOK == 1
 	c.Final, _, err = storeDump(nc, ids)
@@ -425,8 +427,8 @@ func c20Round(c *c20Case, dir string) error {
 func runC20(cfg *config) error {
 	cs := newCaseSet("c20")
 	rounds := 3 * cfg.scale
-	if cfg.tier == "thorough" && rounds > 12 {
-		rounds = 12 // each thorough round is 24 writers x 120 requests under the race detector (1-2 min)
+	if cfg.tier == "thorough" && rounds > 9 {
+		rounds = 9 // each thorough round is 16 writers x 80 requests under the race detector (1-3 min)
 	}
 	if cfg.replay != "" {
 		rounds = 1
